@@ -676,7 +676,8 @@ Definition m_socks (st : mst) : option (mst * sockres) :=
 (* ---- one operation ---- *)
 Definition option_names (i : cfg_input) : list bytes := map fst (options (i_table i)).
 
-Definition m_step (names : list bytes) (st : mst) (o : op) : option (mst * obs) :=
+Definition m_step_gen (flight : mst -> option N -> list dop -> option (mst * obs))
+           (names : list bytes) (st : mst) (o : op) : option (mst * obs) :=
   match o with
   | OpAssign name v =>
       match m_setattr st name v with
@@ -746,7 +747,127 @@ Definition m_step (names : list bytes) (st : mst) (o : op) : option (mst * obs) 
           | Oos => None
           end
       end
+  | OpSaveDuring rej ds => flight st rej ds
   end.
+
+(* ---- save() whose answer is still to come ----
+   save() runs its loop (config takes the pending values) and hands the SETCONF to the protocol, which
+   writes it at once or, while another command is unanswered, once that one is answered.  Only the
+   callback on "250 OK" (_save_completed) does `unsaved = {}`; a 5xx answer changes nothing. *)
+(* what a SETCONF carries: per pending entry the object (a list: its elements at that moment) *)
+Definition sent_t := list (bytes * option cval).
+Inductive call := CDone | CLine (line : bytes) (sent : sent_t).
+
+Definition resolve_u (st : mst) (k : bytes) (u : uval) : option cval :=
+  match u with UAlias => dget k (m_config st) | UVal v => Some v end.
+
+Definition m_send (st : mst) : option (mst * call) :=
+  match m_unsaved st with
+  | [] => Some (st, CDone)                       (* not needs_save(): defer.succeed(self) *)
+  | items =>
+      match save_loop st items [] with
+      | Ok (st1, args) =>
+          if existsb (fun kv : bytes * bytes => key_refused (fst kv)) args then None
+          else Some (st1, CLine (setconf_line args)
+                               (map (fun ku : bytes * uval => (fst ku, resolve_u st1 (fst ku) (snd ku))) (m_unsaved st1)))
+      | _ => None
+      end
+  end.
+
+Definition m_step_base : list bytes -> mst -> op -> option (mst * obs) := m_step_gen (fun _ _ _ => None).
+
+(* the name under which __setattr__ stores the value *)
+Definition setattr_key (st : mst) (name : bytes) : bytes := find_real_name st (find_real_name st name).
+
+(* [out]: the unanswered saves, oldest first: what each one carried, and the options ASSIGNED since it was
+   sent (their entry of `unsaved` is another object now: `unsaved[key] is value` fails) *)
+Fixpoint m_inner (names : list bytes) (st : mst) (out : list (sent_t * list bytes)) (ds : list dop)
+  : option (mst * list ires * list call * list (sent_t * list bytes)) :=
+  match ds with
+  | [] => Some (st, [], [], out)
+  | d :: ds' =>
+      match op_of_dop d with
+      | None =>
+          match m_send st with
+          | Some (st1, c) =>
+              let out1 := match c with CLine _ sent => out ++ [(sent, [])] | CDone => out end in
+              match m_inner names st1 out1 ds' with
+              | Some (st2, rs, cs, out2) => Some (st2, ISent :: rs, c :: cs, out2)
+              | None => None
+              end
+          | None => None
+          end
+      | Some o =>
+          match m_step_base names st o with
+          | Some (st1, ob) =>
+              match o_wrote ob, ires_of_ores (o_res ob) with
+              | [], Some r =>
+                  let out1 := match d, r with
+                              | DAssign name _, IOk =>
+                                  map (fun x : sent_t * list bytes => (fst x, setattr_key st name :: snd x)) out
+                              | _, _ => out
+                              end in
+                  match m_inner names st1 out1 ds' with
+                  | Some (st2, rs, cs, out2) => Some (st2, r :: rs, cs, out2)
+                  | None => None
+                  end
+              | _, _ => None
+              end
+          | None => None
+          end
+      end
+  end.
+
+Definition call_lines (cs : list call) : list bytes :=
+  concat (map (fun c => match c with CLine l _ => [l] | CDone => [] end) cs).
+
+(* _save_completed(result, sent): the loop `for (key, value, snapshot) in sent: if key in unsaved and
+   unsaved[key] is value and (not a list or list(value) == snapshot): del unsaved[key]` removes exactly the
+   entries that are [acked]: named by `sent`, not assigned since (still the same object), and -- a list --
+   holding the same elements as when it was sent; the other entries keep their order *)
+Definition acked (touched : list bytes) (st : mst) (sent : sent_t) (ku : bytes * uval) : bool :=
+  match dget (fst ku) sent with
+  | None => false
+  | Some ov =>
+      negb (mem_bytes (fst ku) touched) &&
+      match ov with
+      | Some (CList _ l) =>
+          match resolve_u st (fst ku) (snd ku) with
+          | Some (CList _ l') => list_eqb atom_eqb l l'
+          | _ => false
+          end
+      | _ => true
+      end
+  end.
+Definition m_ack (st : mst) (o : sent_t * list bytes) : mst :=
+  with_unsaved st (filter (fun ku => negb (acked (snd o) st (fst o) ku)) (m_unsaved st)).
+
+Definition m_flight (names : list bytes) (st : mst) (rej : option N) (ds : list dop) : option (mst * obs) :=
+  match m_send st with
+  | None => None
+  | Some (st0, c0) =>
+      let out0 := match c0 with CLine _ sent => [(sent, [])] | CDone => [] end in
+      match m_inner names st0 out0 ds with
+      | None => None
+      | Some (st1, rs, cs, out) =>
+          let calls := c0 :: cs in
+          let lines := call_lines calls in
+          (* every outstanding SETCONF is answered, oldest first *)
+          let st2 := match rej with None => fold_left m_ack out st1 | Some _ => st1 end in
+          let outs := map (fun c => match c with
+                                    | CDone => SOk
+                                    | CLine _ _ => match rej with None => SOk | Some code => SFail code end
+                                    end) calls in
+          match m_snapshot st2 names with
+          | Some (st3, snap) =>
+              Some (st3, {| o_wrote := lines;
+                            o_res := XFlight rs outs (match m_unsaved st2 with [] => false | _ => true end) snap |})
+          | None => None
+          end
+      end
+  end.
+
+Definition m_step (names : list bytes) : mst -> op -> option (mst * obs) := m_step_gen (m_flight names) names.
 
 Fixpoint m_run (names : list bytes) (st : mst) (ops : list op) : option (list obs) :=
   match ops with
